@@ -360,6 +360,35 @@ result types; the wrong-reason pass was confined to capsule-bearing element type
 theorem wfImpliesDuplicateFree_partial (cid : Nat → Nat) {v : Value} (hv : v.WF nfc = true)
     (hc : Ty.hasCapsule v.ty = false) : v.WFc cid nfc = true := D06.WFc_of_WF_noCaps cid hv hc
 
+/-- the tie of the judge: the harness reads `pass` from the `wfc` verb exactly when the tag column fits the value and
+the strict predicate holds of the dumped value (the analogue of `verdict_pass_iff`; not a clause of the property) -/
+theorem wfc_verdict_pass_iff (cids : List Nat) (v : Value) :
+    D06.wfcVerdict cids nfc v = "pass" ↔ (D06.capsCount v.v = cids.length ∧ v.WFc (D06.cidOf cids) nfc = true) := by
+  have fail_ne_pass : ∀ x : String, "fail " ++ x ≠ "pass" := by
+    intro x he
+    have := congrArg String.length he
+    simp [String.length_append] at this
+    have h5 : "fail ".length = 5 := by decide
+    have h4 : "pass".length = 4 := by decide
+    omega
+  unfold D06.wfcVerdict
+  split
+  · rename_i h
+    constructor
+    · intro he; exact absurd he (by decide)
+    · intro ⟨h1, _⟩; simp [h1] at h
+  · rename_i h
+    have hc : D06.capsCount v.v = cids.length := by simpa using h
+    split
+    · rename_i hw; simp [hc, hw]
+    · rename_i hw
+      constructor
+      · intro he
+        split at he
+        · exact absurd he (fail_ne_pass _)
+        · exact absurd he (fail_ne_pass _)
+      · intro ⟨_, h2⟩; exact absurd h2 hw
+
 /-- the strict predicate implies the one all the `wf_…` theorems are about -/
 theorem wfc_implies_wf {cid : Nat → Nat} {v : Value} (h : v.WFc cid nfc = true) : v.WF nfc = true :=
   D06.WF_of_WFc h
